@@ -139,7 +139,9 @@ class Session:
         if getattr(self, "debug", False):
             sys.stdout = _DEVNULL
         try:
-            with seams.watchdog():
+            # (non-termination of the client is decided by the virtual socket's deterministic recv budget - Livelock; the wall-clock
+            # limit is only a backstop and generous, so that a loaded machine cannot turn slowness into a verdict)
+            with seams.watchdog(30):
                 o.value = getattr(c, name)(*args, **kw)
             o.kind = "ret"
         except refms.Livelock as e:
